@@ -324,7 +324,7 @@ Qed.
 
 Lemma rpg_dsb ro F g s ty pl rest :
   r_big s = false -> 0 <= ty < 4294967296 -> zlen pl < 4294967000 ->
-  exists s', r_big s' = false /\ r_ifaces s' = r_ifaces s
+  exists s', r_big s' = false /\ r_ifaces s' = r_ifaces s /\ r_link s' = r_link s
     /\ exec (readPacketG ro F (S g)) s (enc_dsb ty pl ++ rest) = exec (readPacketG ro F g) s' rest.
 Proof.
   intros Hbig Ht Hp. destruct (enc_dsb_shape ty pl Ht Hp) as (E & HL & Hz). cbv zeta in *.
@@ -334,6 +334,195 @@ Proof.
   match goal with |- context [exec (s_disc (L - 8)) ?st (?a ++ ?b ++ ?c ++ ?d ++ ?e ++ rest)] =>
     replace (a ++ b ++ c ++ d ++ e ++ rest) with ((a ++ b ++ c ++ d ++ e) ++ rest) by (repeat rewrite <- app_assoc; reflexivity) end.
   rewrite exec_disc_app by exact Hz. sim. reflexivity.
+Qed.
+
+(* ---------------------------------------------------------------- interface statistics block:
+   parsed and recorded in the statistics of its interface; nothing else changes *)
+Definition clear_stats (i : iface) : iface := set_if_stats i stats0.
+
+Lemma map_clear_upd : forall (l : list iface) k i st, nth_error l k = Some i ->
+  map clear_stats (upd l k (set_if_stats i st)) = map clear_stats l.
+Proof.
+  induction l as [|h t IH]; intros k i st H; [destruct k; discriminate|].
+  destruct k as [|k]; cbn [upd map nth_error] in *.
+  - inversion H; subst. reflexivity.
+  - rewrite (IH _ _ _ H). reflexivity.
+Qed.
+
+Lemma exec_put_stats id st s l :
+  exists s2, exec (put_stats id st) s l = ((s2, Ok tt), l) /\ r_big s2 = r_big s /\ r_blen s2 = r_blen s
+    /\ map clear_stats (r_ifaces s2) = map clear_stats (r_ifaces s) /\ r_link s2 = r_link s.
+Proof.
+  unfold put_stats. rewrite exec_smod. eexists; split; [reflexivity|].
+  destruct (nth_error (r_ifaces s) (Z.to_nat id)) eqn:E; sim; repeat split; auto. apply map_clear_upd; exact E.
+Qed.
+
+Lemma convert_time_total i ts : if_mask i <> 0 -> if_down i <> 0 -> exists t, convert_time i ts = Ok t.
+Proof.
+  intros Hm Hd. unfold convert_time. destruct (if_mask i =? 0) eqn:E1; [lia|]. destruct (if_down i =? 0) eqn:E2; [lia|]. eauto.
+Qed.
+
+Definition isopt_ok (cv : Z * list Z) : Prop :=
+  0 < fst cv < 65536 /\ zlen (snd cv) < 65536
+  /\ ((fst cv = 2 \/ fst cv = 3 \/ fst cv = 4 \/ fst cv = 5) -> 8 <= zlen (snd cv)).
+
+Lemma exec_isb_opts : forall opts fuel id i st s rest,
+  (length opts < fuel)%nat -> r_big s = false -> if_mask i <> 0 -> if_down i <> 0 -> Forall isopt_ok opts ->
+  r_blen s = opts_bytes opts + 8 -> r_blen s < 4294967296 ->
+  exists s', exec (isb_opts fuel id i st) s (concat (map opt_enc opts) ++ [0;0;0;0] ++ rest) = ((s', Ok tt), rest)
+    /\ r_blen s' = 4 /\ r_big s' = false /\ map clear_stats (r_ifaces s') = map clear_stats (r_ifaces s) /\ r_link s' = r_link s.
+Proof.
+  induction opts as [|[c v] t IH]; intros fuel id i st s rest Hf Hbig Hm Hd Hok Hb1 Hb2.
+  - destruct fuel as [|f]; [cbn in Hf; lia|]. cbn [isb_opts map concat app fold_left opts_bytes fold_right] in *.
+    destruct (exec_readOption_eoo s rest Hbig ltac:(lia) Hb2) as (s1 & E1 & C1 & B1 & K1).
+    rewrite exec_bind. cbn [app] in E1. rewrite E1. cbv iota beta.
+    rewrite exec_bind, exec_sget. cbv iota beta. rewrite C1. cbn [Z.eqb]. rewrite exec_sret.
+    destruct (core_fields _ _ K1) as (D1 & _ & D3 & D4 & _).
+    exists s1. repeat split; auto; try congruence; lia.
+  - destruct fuel as [|f]; [cbn in Hf; lia|]. inversion Hok as [|? ? Hcv Ht]; subst.
+    destruct Hcv as (Hc & Hv & H8). cbn [fst snd] in *.
+    cbn [map concat opts_bytes fold_right] in *. rewrite <- app_assoc.
+    pose proof (opt_size_pos (c, v)) as Hp. pose proof (opts_bytes_nonneg t) as Hnn.
+    fold (opts_bytes t) in Hb1.
+    destruct (exec_readOption s c v (concat (map opt_enc t) ++ [0;0;0;0] ++ rest) Hbig Hc Hv ltac:(lia) Hb2)
+      as (s1 & E1 & C1 & V1 & B1 & K1).
+    cbn [isb_opts]. rewrite exec_bind, E1. cbv iota beta. rewrite exec_bind, exec_sget. cbv iota beta.
+    rewrite C1, V1.
+    destruct (core_fields _ _ K1) as (D1 & _ & D3 & D4 & _).
+    assert (r_big s1 = false) as Hbig1 by congruence.
+    (* whatever the statistics and however they were stored, the loop goes on *)
+    assert (forall st' s2, r_big s2 = false -> r_blen s2 = r_blen s1 ->
+              map clear_stats (r_ifaces s2) = map clear_stats (r_ifaces s) -> r_link s2 = r_link s ->
+              exists s', exec (isb_opts f id i st') s2 (concat (map opt_enc t) ++ [0;0;0;0] ++ rest) = ((s', Ok tt), rest)
+                /\ r_blen s' = 4 /\ r_big s' = false /\ map clear_stats (r_ifaces s') = map clear_stats (r_ifaces s) /\ r_link s' = r_link s) as G.
+    { intros st' s2 G1 G2 G3 G4. destruct (IH f id i st' s2 rest) as (s' & E & P1 & P2 & P3 & P4); auto; try lia.
+      - cbn in Hf; lia.
+      - exists s'. repeat split; auto; congruence. }
+    assert (forall st', exists s', exec (put_stats id st';;; isb_opts f id i st') s1 (concat (map opt_enc t) ++ [0;0;0;0] ++ rest) = ((s', Ok tt), rest)
+                /\ r_blen s' = 4 /\ r_big s' = false /\ map clear_stats (r_ifaces s') = map clear_stats (r_ifaces s) /\ r_link s' = r_link s) as GP.
+    { intros st'. destruct (exec_put_stats id st' s1 (concat (map opt_enc t) ++ [0;0;0;0] ++ rest)) as (s2 & E2 & Q1 & Q2 & Q3 & Q4).
+      rewrite exec_bind, E2. cbv iota beta. apply G; congruence. }
+    assert (c =? 0 = false) as -> by lia.
+    destruct (c =? 1) eqn:X1; [apply GP|].
+    destruct ((c =? 2) || (c =? 3) || (c =? 4) || (c =? 5)) eqn:X2.
+    + assert (zlen v <? 8 = false) as -> by lia.
+      destruct (c =? 2) eqn:Y2.
+      { destruct (convert_time_total i (ts_of (r_big s1) v) Hm Hd) as (tm & ->). rewrite exec_bind. cbn [slift]. rewrite exec_sret. cbv iota beta. apply GP. }
+      destruct (c =? 3) eqn:Y3.
+      { destruct (convert_time_total i (ts_of (r_big s1) v) Hm Hd) as (tm & ->). rewrite exec_bind. cbn [slift]. rewrite exec_sret. cbv iota beta. apply GP. }
+      destruct (c =? 4); apply GP.
+    + apply G; auto; congruence.
+Qed.
+
+Definition isb_options (st : wstats) : list (Z * list Z) :=
+  (match ws_start st with Some t => [(2, enc_ts t)] | None => [] end)
+  ++ (match ws_end st with Some t => [(3, enc_ts t)] | None => [] end)
+  ++ (if ws_drop st =? NoValue64 then [] else [(5, le_bytes 8 (ws_drop st))])
+  ++ (if ws_recv st =? NoValue64 then [] else [(4, le_bytes 8 (ws_recv st))]).
+
+Lemma zlen_enc_ts t : zlen (enc_ts t) = 8.
+Proof. unfold enc_ts. rewrite zlen_app, !zlen_le_bytes. reflexivity. Qed.
+
+Lemma isb_options_ok st : Forall isopt_ok (isb_options st) /\ 0 <= opts_bytes (isb_options st) <= 48
+  /\ (length (isb_options st) <= 4)%nat.
+Proof.
+  unfold isb_options.
+  assert (forall c v, 0 < c < 65536 -> zlen v = 8 -> isopt_ok (c, v)) as A
+    by (intros c v Hc Hv; unfold isopt_ok; cbn [fst snd]; repeat split; lia).
+  assert (forall c v, zlen v = 8 -> opts_bytes [(c, v)] = 12) as B
+    by (intros c v Hv; cbn [opts_bytes fold_right]; unfold opt_size; cbn [snd]; rewrite Hv; reflexivity).
+  destruct (ws_start st), (ws_end st), (ws_drop st =? NoValue64), (ws_recv st =? NoValue64); cbn [app length];
+    (split; [repeat constructor; apply A; try lia; try apply zlen_enc_ts; try apply zlen_le_bytes|]);
+    (split; [|lia]); cbn [opts_bytes fold_right]; unfold opt_size; cbn [snd];
+    rewrite ?zlen_enc_ts, ?zlen_le_bytes; cbn; lia.
+Qed.
+
+Lemma enc_isb_shape ifid st : 0 <= ifid < 4294967296 ->
+  let L := zlen (opts_enc (isb_options st)) + 24 in
+  let ts := match ws_last st with Some t => t | None => 0 end in
+  enc_isb ifid st = le_bytes 4 5 ++ le_bytes 4 L ++ (le_bytes 4 ifid ++ enc_ts ts) ++ opts_enc (isb_options st) ++ le_bytes 4 L
+  /\ 24 <= L < 4294967296 /\ 0 <= zlen (opts_enc (isb_options st)) <= opts_bytes (isb_options st) + 4.
+Proof.
+  intros Hi. destruct (isb_options_ok st) as (_ & Hb & _). cbv zeta. unfold enc_isb. fold (isb_options st).
+  rewrite opts_size_small by lia.
+  assert (match isb_options st with [] => 0 | _ :: _ => opts_bytes (isb_options st) + 4 end = zlen (opts_enc (isb_options st))) as ->
+    by (rewrite zlen_opts_enc; reflexivity).
+  assert (0 <= zlen (opts_enc (isb_options st)) <= opts_bytes (isb_options st) + 4) as Hz
+    by (rewrite zlen_opts_enc; destruct (isb_options st); [cbn; lia|lia]).
+  rewrite u32_small by lia. rewrite (u32_small ifid) by lia.
+  split; [|split; [lia|exact Hz]]. repeat rewrite <- app_assoc. reflexivity.
+Qed.
+
+Lemma exec_opts_written_isb F l id i st s rest :
+  (length l < F)%nat -> r_big s = false -> if_mask i <> 0 -> if_down i <> 0 -> Forall isopt_ok l ->
+  r_blen s = zlen (opts_enc l) + 4 -> r_blen s < 4294967296 ->
+  exists s', exec (isb_opts F id i st) s (opts_enc l ++ rest) = ((s', Ok tt), rest)
+    /\ r_blen s' = 4 /\ r_big s' = false /\ map clear_stats (r_ifaces s') = map clear_stats (r_ifaces s) /\ r_link s' = r_link s.
+Proof.
+  intros HF Hbig Hm Hd Hok Hb1 Hb2. rewrite zlen_opts_enc in Hb1. destruct l as [|x t] eqn:E.
+  - destruct F as [|f]; [cbn in HF; lia|]. cbn [opts_enc app isb_opts].
+    destruct (exec_readOption_fake s rest ltac:(lia)) as (s1 & E1 & C1 & B1 & K1).
+    rewrite exec_bind, E1. cbv iota beta. rewrite exec_bind, exec_sget. cbv iota beta. rewrite C1. cbn [Z.eqb].
+    rewrite exec_sret. destruct (core_fields _ _ K1) as (D1 & _ & D3 & D4 & _). exists s1. repeat split; auto; congruence.
+  - unfold opts_enc. rewrite <- app_assoc. rewrite <- E in *.
+    apply exec_isb_opts; auto. rewrite E in *. lia.
+Qed.
+
+Lemma exec_readISB F s ifid st i rest :
+  r_big s = false -> 0 <= ifid < 4294967296 -> nth_error (r_ifaces s) (Z.to_nat ifid) = Some i ->
+  if_mask i <> 0 -> if_down i <> 0 -> (4 < F)%nat ->
+  r_blen s = zlen (opts_enc (isb_options st)) + 16 ->
+  let ts := match ws_last st with Some t => t | None => 0 end in
+  exists s', exec (readISB F) s ((le_bytes 4 ifid ++ enc_ts ts) ++ opts_enc (isb_options st)
+                                 ++ le_bytes 4 (zlen (opts_enc (isb_options st)) + 24) ++ rest) = ((s', Ok tt), rest)
+    /\ r_big s' = false /\ map clear_stats (r_ifaces s') = map clear_stats (r_ifaces s) /\ r_link s' = r_link s.
+Proof.
+  intros Hbig Hi Ei Hm Hd HF Hb. cbv zeta.
+  destruct (isb_options_ok st) as (Hok & Hob & Hlen).
+  destruct (enc_isb_shape ifid st Hi) as (_ & HL & Hz). cbv zeta in *.
+  set (ts := match ws_last st with Some t => t | None => 0 end).
+  set (b12 := le_bytes 4 ifid ++ enc_ts ts).
+  assert (zlen b12 = 12) as Hb12 by (unfold b12; rewrite zlen_app, zlen_le_bytes, zlen_enc_ts; reflexivity).
+  assert (getu false (sl b12 0 4) = ifid) as G1.
+  { unfold b12, getu. rewrite sl_0 by apply le_bytes_length. apply le_val_le_bytes. change (256 ^ Z.of_nat 4) with 4294967296. lia. }
+  unfold readISB. rewrite exec_bind, exec_rd_app by exact Hb12. cbv iota beta.
+  rewrite exec_bind, exec_sub_blen. cbv iota beta.
+  rewrite exec_bind, exec_sget. cbv iota beta. sim. rewrite Hbig, G1.
+  assert (Z.to_nat ifid < length (r_ifaces s))%nat as Hlt0 by (apply nth_error_Some; congruence).
+  assert (ifid < zlen (r_ifaces s)) as Hlt by (unfold zlen; lia).
+  assert (zlen (r_ifaces s) <=? ifid = false) as -> by lia. rewrite Ei.
+  destruct (convert_time_total i (getu false (sl b12 4 8) * 4294967296 + getu false (sl b12 8 12)) Hm Hd) as (tm & ->).
+  rewrite exec_bind. cbn [slift]. rewrite exec_sret. cbv iota beta.
+  match goal with |- context [exec (put_stats ifid ?x;;; ?k) ?st ?l] =>
+    destruct (exec_put_stats ifid x st l) as (s2 & E2 & Q1 & Q2 & Q3 & Q4) end.
+  rewrite exec_bind, E2. cbv iota beta. sim.
+  rewrite exec_bind.
+  destruct (exec_opts_written_isb F (isb_options st) ifid i
+              (mkStats tm zero_time zero_time [] NoValue64 NoValue64) s2
+              (le_bytes 4 (zlen (opts_enc (isb_options st)) + 24) ++ rest)) as (s3 & E3 & P1 & P2 & P3 & P4);
+    try assumption; try lia; try congruence.
+  { rewrite Q2. rewrite u32_small by lia. lia. }
+  { rewrite Q2. rewrite u32_small by lia. lia. }
+  rewrite E3. cbv iota beta. rewrite exec_bind, exec_sget. cbv iota beta. rewrite P1.
+  rewrite exec_disc_app by (rewrite zlen_le_bytes; reflexivity).
+  eexists; split; [reflexivity|]. sim. split; [exact P2|]. split; [rewrite P3, Q3; reflexivity|]. rewrite P4, Q4. reflexivity.
+Qed.
+
+Lemma rpg_isb ro F g s ifid st i rest :
+  r_big s = false -> 0 <= ifid < 4294967296 -> nth_error (r_ifaces s) (Z.to_nat ifid) = Some i ->
+  if_mask i <> 0 -> if_down i <> 0 -> (4 < F)%nat ->
+  exists s', r_big s' = false /\ map clear_stats (r_ifaces s') = map clear_stats (r_ifaces s) /\ r_link s' = r_link s
+    /\ exec (readPacketG ro F (S g)) s (enc_isb ifid st ++ rest) = exec (readPacketG ro F g) s' rest.
+Proof.
+  intros Hbig Hi Ei Hm Hd HF. destruct (enc_isb_shape ifid st Hi) as (E & HL & Hz). cbv zeta in *.
+  set (L := zlen (opts_enc (isb_options st)) + 24) in *. rewrite E. repeat rewrite <- app_assoc.
+  destruct (exec_readISB F (set_block s false 5 (L - 8)) ifid st i rest) as (s' & Er & P1 & P2 & P3);
+    try assumption; try reflexivity; [sim; lia|].
+  exists s'. sim. repeat split; auto.
+  unfold readPacketG. rewrite !exec_bind. cbn [readPacketHeader]. cbv zeta.
+  rewrite exec_bind, exec_readBlock_plain by (try assumption; try lia; unfold BT_SHB; lia). cbv iota beta.
+  rewrite exec_bind, exec_sget. cbv iota beta. sim. unfold BT_SHB. cbn [Z.eqb Pos.eqb orb].
+  rewrite exec_bind. cbv zeta in Er. repeat rewrite <- app_assoc in Er. fold L in Er. rewrite Er. reflexivity.
 Qed.
 
 (* ---------------------------------------------------------------- scripts *)
@@ -353,7 +542,7 @@ Fixpoint ops_ok (ws : list wiface) (ops : list wop) : Prop :=
   | WAddIf w :: t => wif_ok w /\ ops_ok (ws ++ [w]) t
   | WPacket ifid ts caplen len data o :: t => wf_packet (map iface_of ws) ifid ts caplen len data o /\ ops_ok ws t
   | WDSB ty pl :: t => dsb_type_ok ty = true /\ 0 <= ty < 4294967296 /\ zlen pl < 4294967000 /\ ops_ok ws t
-  | _ => False
+  | WStats ifid st :: t => 0 <= ifid < zlen ws /\ ifid < 4294967296 /\ ops_ok ws t
   end.
 
 Definition link_at (ws : list wiface) (ifid : Z) : Z :=
@@ -381,7 +570,29 @@ Definition fuel_ok (F : nat) (ops : list wop) : Prop :=
   (12 < F)%nat /\
   Forall (fun op => match op with WPacket _ _ _ _ _ o => (length (popts_to_options o) + 2 < F)%nat | _ => True end) ops.
 
-Definition sinv (ws : list wiface) (s : rst) : Prop := r_big s = false /\ r_ifaces s = map iface_of ws.
+(* the reader state after a script: little endian, and the interfaces of the script in order, up to
+   the statistics recorded from interface statistics blocks *)
+Definition sinv (ws : list wiface) (s : rst) : Prop := r_big s = false /\ map clear_stats (r_ifaces s) = map iface_of ws.
+
+Lemma wf_packet_clear l ifid ts caplen len data o :
+  wf_packet (map clear_stats l) ifid ts caplen len data o -> wf_packet l ifid ts caplen len data o.
+Proof.
+  unfold wf_packet. intros (H1 & H2 & H3 & H4 & H5 & H6 & H7 & i & Ei & Hns & Hsn & Hlt).
+  rewrite nth_error_map in Ei. destruct (nth_error l (Z.to_nat ifid)) as [j|] eqn:Ej; [|discriminate].
+  cbn in Ei. inversion Ei; subst i. unfold zlen in Hlt. rewrite map_length in Hlt. fold (zlen l) in Hlt.
+  split; [exact H1|]. split; [exact H2|]. split; [exact H3|]. split; [exact H4|]. split; [exact H5|]. split; [exact H6|]. split; [exact H7|].
+  exists j. unfold iface_ns, clear_stats, set_if_stats in *. cbn [if_mask if_up if_down if_tsoff if_snap] in *. auto.
+Qed.
+
+Lemma sinv_link ws s ifid i : map clear_stats (r_ifaces s) = map iface_of ws ->
+  nth_error (r_ifaces s) (Z.to_nat ifid) = Some i -> if_link i = link_at ws ifid /\ if_mask i = E9 /\ if_down i = 1.
+Proof.
+  intros Hifs Ei. unfold link_at.
+  assert (nth_error (map clear_stats (r_ifaces s)) (Z.to_nat ifid) = Some (clear_stats i)) as H
+    by (rewrite nth_error_map, Ei; reflexivity).
+  rewrite Hifs, nth_error_map in H. destruct (nth_error ws (Z.to_nat ifid)) as [w|]; [|discriminate].
+  cbn in H. unfold clear_stats, set_if_stats, iface_of in H. inversion H. auto.
+Qed.
 
 Lemma idb_options_len w : (length (idb_options w) <= 6)%nat.
 Proof.
@@ -414,7 +625,7 @@ Proof.
       destruct Hok as (Hw & Hok). cbn [exp_pkts enc_ops map concat enc_op]. rewrite <- app_assoc.
       destruct (rpg_idb ro F g s w (concat (map enc_op t) ++ tail) Hbig Hw ltac:(pose proof (idb_options_len w); lia))
         as (s1 & Q1 & Q2 & E).
-      assert (sinv (ws ++ [w]) s1) as Hs1 by (split; [exact Q1|rewrite Q2, Hifs, map_app; reflexivity]).
+      assert (sinv (ws ++ [w]) s1) as Hs1 by (split; [exact Q1|rewrite Q2, !map_app, Hifs; reflexivity]).
       assert (length t < g)%nat as Hg' by lia.
       destruct (IH (ws ++ [w]) s1 g tail Hg' Hs1 Hok (conj HF12 HFt)) as (ws' & s' & Hs' & R).
       exists ws', s'. split; [exact Hs'|]. fold (enc_ops t) in *.
@@ -424,18 +635,33 @@ Proof.
         destruct R as (t' & R1 & R2 & R3 & R4 & R5 & R6). exists t'. rewrite E. split; [exact R1|]. split; [exact R2|]. split; [exact R3|]. split; [exact R4|]. split; [cbn [length] in *; lia|exact R6].
     + (* WritePacketWithOptions *)
       destruct Hok as (Hwf & Hok). cbn [exp_pkts enc_ops map concat enc_op]. rewrite <- app_assoc.
-      rewrite <- Hifs in Hwf.
+      rewrite <- Hifs in Hwf. apply wf_packet_clear in Hwf.
       destruct (exec_epb_g ro F g s ifid ts caplen len data o (concat (map enc_op t) ++ tail) Hmix Hbig HF1 Hwf)
         as (s' & i & Ei & E & Q1 & Q2 & _).
       exists ws, s'. split; [split; [exact Q1|rewrite Q2; exact Hifs]|].
       exists t. rewrite E. fold (enc_ops t).
-      assert (if_link i = link_at ws ifid) as ->.
-      { unfold link_at. rewrite Hifs, nth_error_map in Ei. destruct (nth_error ws (Z.to_nat ifid)); [|discriminate].
-        cbn in Ei. inversion Ei. reflexivity. }
+      assert (if_link i = link_at ws ifid) as -> by (apply (sinv_link ws s ifid i Hifs Ei)).
       split; [reflexivity|]. split; [exact Hok|]. split; [exact (conj HF12 HFt)|]. split; [reflexivity|]. split; [cbn [length]; lia|reflexivity].
+    + (* WriteInterfaceStats: parsed, recorded in the interface *)
+      destruct Hok as (Hid & Hid2 & Hok). cbn [exp_pkts enc_ops map concat enc_op ws_after]. rewrite <- app_assoc.
+      assert (exists i, nth_error (r_ifaces s) (Z.to_nat ifid) = Some i) as (i & Ei).
+      { destruct (nth_error (r_ifaces s) (Z.to_nat ifid)) eqn:E; [eauto|]. apply nth_error_None in E.
+        assert (length (r_ifaces s) = length ws) by (rewrite <- (map_length clear_stats), Hifs, map_length; reflexivity).
+        unfold zlen in Hid. lia. }
+      destruct (sinv_link ws s ifid i Hifs Ei) as (_ & Hm & Hd).
+      destruct (rpg_isb ro F g s ifid st i (concat (map enc_op t) ++ tail) Hbig ltac:(lia) Ei
+                  ltac:(rewrite Hm; unfold E9; lia) ltac:(rewrite Hd; lia) ltac:(lia)) as (s1 & Q1 & Q2 & _ & E).
+      assert (sinv ws s1) as Hs1 by (split; [exact Q1|rewrite Q2; exact Hifs]).
+      assert (length t < g)%nat as Hg' by lia.
+      destruct (IH ws s1 g tail Hg' Hs1 Hok (conj HF12 HFt)) as (ws' & s' & Hs' & R).
+      exists ws', s'. split; [exact Hs'|]. fold (enc_ops t) in *.
+      destruct (exp_pkts ws t) as [|p ps] eqn:Ep.
+      * rewrite E. destruct t; cbn [length Nat.sub] in *; exact R.
+      * destruct t as [|op2 t2]; [cbn in Ep; discriminate|].
+        destruct R as (t' & R1 & R2 & R3 & R4 & R5 & R6). exists t'. rewrite E. split; [exact R1|]. split; [exact R2|]. split; [exact R3|]. split; [exact R4|]. split; [cbn [length] in *; lia|exact R6].
     + (* WriteDecryptionSecretsBlock: skipped *)
       destruct Hok as (_ & Hty & Hpl & Hok). cbn [exp_pkts enc_ops map concat enc_op ws_after]. rewrite <- app_assoc.
-      destruct (rpg_dsb ro F g s ty pl (concat (map enc_op t) ++ tail) Hbig Hty Hpl) as (s1 & Q1 & Q2 & E).
+      destruct (rpg_dsb ro F g s ty pl (concat (map enc_op t) ++ tail) Hbig Hty Hpl) as (s1 & Q1 & Q2 & _ & E).
       assert (sinv ws s1) as Hs1 by (split; [exact Q1|rewrite Q2; exact Hifs]).
       assert (length t < g)%nat as Hg' by lia.
       destruct (IH ws s1 g tail Hg' Hs1 Hok (conj HF12 HFt)) as (ws' & s' & Hs' & R).
@@ -543,11 +769,12 @@ Proof.
   cbn [run_d]. rewrite u32_small by lia. replace (L - 8 - 4) with (L - 12) by lia. reflexivity.
 Qed.
 
-Lemma exec_newReader ro F sec rest : ro_mixed ro = true -> sec_ok sec -> (6 < F)%nat ->
-  exists s', exec (newReader ro F) init_rst (enc_shb sec ++ rest) = ((s', Ok tt), rest)
-    /\ r_big s' = false /\ r_ifaces s' = [] /\ r_sect s' = sec.
+Lemma exec_newReader_any ro F sec rest : sec_ok sec -> (6 < F)%nat ->
+  exists s', r_big s' = false /\ r_ifaces s' = [] /\ r_sect s' = sec /\ r_first s' = false
+    /\ exec (newReader ro F) init_rst (enc_shb sec ++ rest)
+       = if ro_mixed ro then ((s', Ok tt), rest) else exec (firstInterface ro F F) s' rest.
 Proof.
-  intros Hmix Hs HF. pose proof (enc_shb_shape sec Hs) as (Hshape & HL). cbv zeta in *.
+  intros Hs HF. pose proof (enc_shb_shape sec Hs) as (Hshape & HL). cbv zeta in *.
   destruct (shb_options_ok sec Hs) as (Hok & Hb & Hlen).
   rewrite Hshape. repeat rewrite <- app_assoc.
   set (L := zlen (opts_enc (shb_options sec)) + 28) in *.
@@ -576,9 +803,39 @@ Proof.
   rewrite E1. cbv iota beta. rewrite shb_fold.
   rewrite exec_bind, exec_sget. cbv iota beta. rewrite B1.
   rewrite exec_bind, exec_disc_app by (rewrite zlen_le_bytes; reflexivity). cbv iota beta.
-  rewrite exec_bind, exec_smod. cbv iota beta. rewrite Hmix. rewrite exec_sret.
+  rewrite exec_bind, exec_smod. cbv iota beta.
   destruct (core_fields _ _ K1) as (D1 & D2 & D3 & D4 & D5 & D6 & D7 & D8 & D9 & D10 & D11 & D12). sim.
-  eexists; split; [reflexivity|]. sim. repeat split; auto.
+  eexists. split; [|split; [|split; [|split]]]; cycle 4.
+  { destruct (ro_mixed ro); [rewrite exec_sret|]; reflexivity. }
+  all: sim; auto.
+Qed.
+
+Lemma exec_newReader ro F sec rest : ro_mixed ro = true -> sec_ok sec -> (6 < F)%nat ->
+  exists s', exec (newReader ro F) init_rst (enc_shb sec ++ rest) = ((s', Ok tt), rest)
+    /\ r_big s' = false /\ r_ifaces s' = [] /\ r_sect s' = sec.
+Proof.
+  intros Hmix Hs HF. destruct (exec_newReader_any ro F sec rest Hs HF) as (s' & P1 & P2 & P3 & P4 & E).
+  rewrite Hmix in E. eauto.
+Qed.
+
+(* only the first interface's link type wanted: NewNgReader also reads the first interface *)
+Lemma exec_newReader_unmixed ro F sec w rest : ro_mixed ro = false -> sec_ok sec -> wif_ok w -> (12 < F)%nat ->
+  exists s', exec (newReader ro F) init_rst (enc_shb sec ++ enc_idb w ++ rest) = ((s', Ok tt), rest)
+    /\ r_big s' = false /\ r_ifaces s' = [iface_of w] /\ r_link s' = wi_link w /\ r_sect s' = sec.
+Proof.
+  intros Hmix Hs Hw HF. destruct (exec_newReader_any ro F sec (enc_idb w ++ rest) Hs ltac:(lia)) as (s0 & P1 & P2 & P3 & P4 & E).
+  rewrite Hmix in E. rewrite E. clear E.
+  pose proof (enc_idb_shape w Hw) as (Hshape & Hz & HL). cbv zeta in *.
+  rewrite Hshape. repeat rewrite <- app_assoc. set (L := zlen (opts_enc (idb_options w)) + 20) in *.
+  destruct (exec_readIDB F (set_block s0 false 1 (L - 8)) w rest) as (s1 & Er & Q1 & Q2 & Q3 & Q4 & Q5 & Q6 & Q7);
+    try assumption; try reflexivity; [pose proof (idb_options_len w); lia|sim; lia|].
+  destruct F as [|f]; [lia|]. cbn [firstInterface].
+  rewrite exec_bind, exec_readBlock_plain by (try assumption; try lia; unfold BT_SHB; lia). cbv iota beta.
+  rewrite exec_bind, exec_sget. cbv iota beta. sim. cbn [Z.eqb Pos.eqb].
+  rewrite exec_bind. repeat rewrite <- app_assoc in Er. fold L in Er. rewrite Er. cbv iota beta.
+  rewrite exec_bind, exec_sget. cbv iota beta. sim. rewrite Q2, P2. cbn [app].
+  rewrite Q4, P4. cbn [negb]. rewrite exec_smod.
+  eexists; split; [reflexivity|]. sim. split; [exact Q1|]. split; [rewrite Q2, P2; reflexivity|]. split; [reflexivity|]. rewrite Q5; exact P3.
 Qed.
 
 (* ---------------------------------------------------------------- the writer accepts an ok script and writes its blocks *)
@@ -601,6 +858,9 @@ Proof.
     assert (zlen ws <=? ifid = false) as -> by lia. assert (ifid <? 0 = false) as -> by lia. cbn [orb].
     assert (caplen =? zlen data = true) as -> by lia. cbn [negb].
     assert (len <? caplen = false) as -> by lia.
+    rewrite IH; [reflexivity|exact Hok|lia].
+  - destruct Hok as (Hid & _ & Hok). cbn [wrun wstep map enc_op].
+    assert (zlen ws <=? ifid = false) as -> by lia. assert (ifid <? 0 = false) as -> by lia. cbn [orb].
     rewrite IH; [reflexivity|exact Hok|lia].
   - destruct Hok as (Hty & _ & _ & Hok). cbn [wrun wstep map enc_op]. rewrite Hty.
     rewrite IH; [reflexivity|exact Hok|lia].
@@ -655,6 +915,11 @@ Proof.
   - destruct Hok as (Hw & Hok). destruct (IH _ Hok) as (I1 & I2). destruct (zlen_enc_epb _ _ _ _ _ _ _ Hw) as (Z1 & Z2). cbn [enc_op].
     pose proof (zlen_nonneg (enc_ops t)).
     split; [lia|]. constructor; [lia|]. eapply Forall_impl; [|exact I2]. intros [] Ha; auto. lia.
+  - destruct Hok as (Hid & Hid2 & Hok). destruct (IH _ Hok) as (I1 & I2). cbn [enc_op].
+    destruct (enc_isb_shape ifid st ltac:(lia)) as (E & HL & Hz). cbv zeta in *.
+    assert (20 <= zlen (enc_isb ifid st)).
+    { rewrite E. rewrite !zlen_app, !zlen_le_bytes, zlen_enc_ts. lia. }
+    split; [lia|]. constructor; [exact I|]. eapply Forall_impl; [|exact I2]. intros [] Ha; auto. lia.
   - destruct Hok as (_ & Hty & Hpl & Hok). destruct (IH _ Hok) as (I1 & I2). cbn [enc_op].
     destruct (enc_dsb_shape ty pl Hty Hpl) as (E & HL & Hz). cbv zeta in *.
     assert (20 <= zlen (enc_dsb ty pl)) by (rewrite E; rewrite zlen_app, zlen_app, Hz, !zlen_le_bytes; lia).
@@ -689,6 +954,6 @@ Proof.
   assert (zlen script = zlen ops + 1) as Hsl by (unfold script, zlen; cbn [length]; lia).
   assert (length script < F)%nat as HlF by (unfold zlen in *; lia).
   destruct (read_all_script ro F _ 1 [] Hmix (tail_ends_nil ro F _) (length script) script [] s0 [] F
-              (le_n _) HlF HlF (conj Q1 Q2) Hok Hfo eq_refl) as (s' & l' & E).
+              (le_n _) HlF HlF (conj Q1 (f_equal (map clear_stats) Q2)) Hok Hfo eq_refl) as (s' & l' & E).
   rewrite app_nil_r in E. rewrite E. cbn [fst snd run_d rev app]. repeat split; reflexivity.
 Qed.
